@@ -137,14 +137,14 @@ def run(ctx, eng):
                'with the rule on every combination' % len(atoms_seen)),
            node=f1.node)
     f2 = m.func('windows.WindowManager.process_bytes')
-    ok = False
+    ok = cm.Every()
     for p in cm.normal_paths(eng.I.run(f2)):
         ws = [e for e in p.events if e.kind == 'write' and
               e.attr == '_bytes_processed']
         c = cm.calls_to(p, '_maybe_update_window')
-        ok = len(ws) == 1 and ws[0].aug == '+' and \
-            ws[0].operand == ('p', 'size') and len(c) == 1 and \
-            p.value == c[0].result and p.index(ws[0]) < p.index(c[0])
+        ok(len(ws) == 1 and ws[0].aug == '+' and
+           ws[0].operand == ('p', 'size') and len(c) == 1 and
+           p.value == c[0].result and p.index(ws[0]) < p.index(c[0]))
     ctx.ob('FLOW.process', f2.qual, 'adds exactly its argument', ok,
            '_bytes_processed += size; return _maybe_update_window()',
            node=f2.node)
@@ -267,16 +267,16 @@ def run(ctx, eng):
            % sorted(rng), node=f5.node)
     # ---- a local INITIAL_WINDOW_SIZE change moves window and maximum alike
     f6 = m.func('stream.H2Stream._inbound_flow_control_change_from_settings')
-    ok = False
+    ok = cm.Every()
     for p in cm.normal_paths(eng.I.run(f6)):
         wo = cm.calls_to(p, 'window_opened')
         mw = [e for e in p.events if e.kind == 'write' and
               e.attr == 'max_window_size' and e.frame == f6.qual]
-        ok = len(wo) == 1 and wo[0].args[0] == ('p', 'delta') and \
-            len(mw) == 1 and cm.aff_is(mw[0].value, {
-                'delta': 1,
-                'self._inbound_window_manager.max_window_size': 1}) and \
-            cm.reads_entry_value(mw[0].value, 'max_window_size')
+        ok(len(wo) == 1 and wo[0].args[0] == ('p', 'delta') and
+           len(mw) == 1 and cm.aff_is(mw[0].value, {
+               'delta': 1,
+               'self._inbound_window_manager.max_window_size': 1}) and
+           cm.reads_entry_value(mw[0].value, 'max_window_size'))
     ctx.ob('FLOW.maximum', f6.qual, 'maximum moves by the settings delta',
            ok, 'max_window_size = old maximum + delta (not derived from the '
            'current window: bytes received but not yet acknowledged must '
